@@ -18,5 +18,5 @@ CONSTANTS
   RowMode = "full"
 INIT Init
 NEXT NextRows
-INVARIANTS TypeOK AssigneeEligible MevIsPerChain PickAmongBest PickSpreads NoEligibleMeansNone
+INVARIANTS TypeOK AssignAll
 CHECK_DEADLOCK FALSE
